@@ -1381,6 +1381,14 @@ int load_header_files()
 } // load_header_files
 
 
+static void output_name_too_long(const char *filename)
+{
+   LOG_FMT(LERR, "the name of the output file for %s is too long\n", filename);
+   log_flush(true);
+   exit(EX_SOFTWARE);
+}
+
+
 static const char *make_output_filename(char *buf, size_t buf_size,
                                         const char *filename,
                                         const char *prefix,
@@ -1392,9 +1400,21 @@ static const char *make_output_filename(char *buf, size_t buf_size,
    {
       len = snprintf(buf, buf_size, "%s/", prefix);
    }
-   snprintf(&buf[len], buf_size - len, "%s%s", filename,
-            (suffix != nullptr) ? suffix : "");
 
+   // a truncated name is the name of another file (or of the input itself)
+   if (  len < 0
+      || static_cast<size_t>(len) >= buf_size)
+   {
+      output_name_too_long(filename);
+   }
+   int rest = snprintf(&buf[len], buf_size - len, "%s%s", filename,
+                       (suffix != nullptr) ? suffix : "");
+
+   if (  rest < 0
+      || static_cast<size_t>(rest) >= buf_size - len)
+   {
+      output_name_too_long(filename);
+   }
    return(buf);
 }
 
